@@ -1,5 +1,5 @@
 (* C05 -- Custom operators and token types integrate consistently.  Property theorems only. *)
-Require Import Base Token Tree Parser Registry ParserSpec RegistryProofs RenameProofs ClimbSpec ClimbProofs.
+Require Import Base Token Tree Parser Registry ParserSpec RegistryProofs RenameProofs ClimbSpec ClimbProofs ClimbSpec2 ClimbProofs2.
 Require Import Gen.Tables.
 
 (* token ids: one stable id per name, distinct across names, above every built-in type *)
@@ -122,3 +122,33 @@ Theorem C05_groups_by_level_reachable : forall ops c semi eof,
             pr_errors r = [] /\ pr_err_returned r = false.
 Proof. exact groups_by_level_reachable. Qed.
 Print Assumptions C05_groups_by_level_reachable.
+
+(* EVERY LEVEL, second part (ClimbSpec2.v): the same for trees that also contain prefix
+   operators (built-in ! and -, registered ones), registered postfix operators and
+   parenthesised subtrees: a prefix operator groups like the built-in unary operators
+   (level 9: its operand takes every operator of a higher level), a registered postfix
+   operator like a call-level suffix (level 11), relative to infix operators of EVERY level. *)
+Theorem C05_groups_by_level_x : forall cfg c semi eof,
+  cfg_ok_x cfg = true ->
+  well_grouped_x cfg c = true -> semi_ok semi = true -> t_type eof = T_EOF ->
+  exists r, parse_tokens cfg (xstmt_tokens c semi eof) = Some r /\
+            p_stmts (pr_program r) = [SExpr (xexpr c)] /\
+            pr_errors r = [] /\ pr_err_returned r = false.
+Proof. exact groups_by_level_x. Qed.
+Print Assumptions C05_groups_by_level_x.
+
+Theorem C05_grouping_unique_x : forall cfg c1 c2,
+  well_grouped_x cfg c1 = true -> well_grouped_x cfg c2 = true ->
+  xyield c1 = xyield c2 -> c1 = c2.
+Proof. exact xgroup_unique. Qed.
+Print Assumptions C05_grouping_unique_x.
+
+(* every configuration a builder produces from a registration history without an operator
+   on the end-of-input token or the closing parenthesis satisfies cfg_ok_x *)
+Theorem C05_cfg_ok_x_reachable : forall ops,
+  Forall (fun o => match o with
+                   | BRegInfix ty _ | BRegPostfix ty => ty <> T_EOF /\ ty <> T_RPAREN
+                   | _ => True end) ops ->
+  cfg_ok_x (pb_build (snd (pb_run pbuilder_new ops))) = true.
+Proof. exact cfg_ok_x_reachable. Qed.
+Print Assumptions C05_cfg_ok_x_reachable.
